@@ -3,7 +3,7 @@
 import sys, os, shutil, json, subprocess
 pid, m, pkg, testre, detected, key = sys.argv[1:7]
 needs = " ".join(sys.argv[7:])
-src = "/tmp/seedout-%s/%s" % (pid, m)
+src = os.environ.get("SEEDSRC", "/tmp/seedout-%s/%s" % (pid, m))
 dst = "/verif/seeded/%s-%s" % (pid, m)
 os.makedirs(dst, exist_ok=True)
 patch = os.path.join(src, "patch.rebased.diff")
